@@ -199,14 +199,6 @@ Proof.
   intros HIJ (A & B & C & D). split; [|split; [|split]]; auto.
 Qed.
 
-Lemma jknown_jv s s' p : jv s = jv s' -> jknown s p -> jknown s' p.
-Proof.
-  intros H. unfold jknown.
-  assert (E : (jview <$> jobs s !! t_job p) = (jview <$> jobs s' !! t_job p)) by (unfold jv in H; rewrite <- !lookup_fmap, H; reflexivity).
-  destruct (jobs s !! t_job p) as [j|], (jobs s' !! t_job p) as [j'|]; simpl in E; try discriminate; auto.
-  apply jmember_view. congruence.
-Qed.
-
 (* ---------- status update with a clone of the stored object ---------- *)
 
 Lemma job_update_member' h j c stored st :
